@@ -257,6 +257,27 @@ func c01Scenario(clients []gridClient, depth int) *explore.Scenario {
 				ccfg.MinVersion = tls.VersionTLS13
 				what += " ech-config-set"
 			}
+			// Config fields that leave the hello alone must leave the edits alone too (for edit sequences of at
+			// most one call, to keep the product small)
+			knob := 0
+			if len(seq) <= 1 && !resumed && !withECH {
+				knob = x.Choose("cli.config", len(clientKnobNames))
+				switch clientKnobNames[knob] {
+				case "SessionTicketsDisabled":
+					ccfg.SessionTicketsDisabled = true
+				case "ClientSessionCache":
+					ccfg.ClientSessionCache = tls.NewLRUClientSessionCache(4)
+				case "DynamicRecordSizingDisabled":
+					ccfg.DynamicRecordSizingDisabled = true
+				case "RenegotiateFreelyAsClient":
+					ccfg.Renegotiation = tls.RenegotiateFreelyAsClient
+				case "PreferSkipResumptionOnNilExtension":
+					ccfg.PreferSkipResumptionOnNilExtension = true
+				}
+				if knob != 0 {
+					what += " Config." + clientKnobNames[knob]
+				}
+			}
 			if resumed {
 				ccfg.ClientSessionCache = tls.NewLRUClientSessionCache(4)
 				ccfg.PreferSkipResumptionOnNilExtension = true // the documented knob for specs without the needed session extension (e.g. fingerprinted copies)
@@ -293,7 +314,7 @@ func c01Scenario(clients []gridClient, depth int) *explore.Scenario {
 								for _, ex := range uc.Extensions {
 									ts = append(ts, fmt.Sprintf("%T", ex))
 								}
-								x.State(fmt.Sprintf("%s|%v|%d|%d|%x|%v", g.Name, resumed, len(uc.HandshakeState.Hello.CipherSuites), len(uc.HandshakeState.Hello.SessionId), uc.HandshakeState.Hello.Random[:2], ts))
+								x.State(fmt.Sprintf("%s|%v|%d|%d|%d|%x|%v", g.Name, resumed, knob, len(uc.HandshakeState.Hello.CipherSuites), len(uc.HandshakeState.Hello.SessionId), uc.HandshakeState.Hello.Random[:2], ts))
 							}
 						}()
 						if err := e.apply(uc); err != nil {
